@@ -105,24 +105,44 @@ def r19_2(ctx) -> None:
         return
     al, sl = a_loops[0], s_loops[0]
     ctx.check(norm(al.iter) == it_name and norm(sl.iter) == it_name, "R19.2", u, al, "both branches iterate the resolved object itself")
-
-    def body_text(loop) -> str:
+    cfg = cfg_of(u)
+    sigs = {}
+    for loop, kind in ((al, "pull"), (sl, "snext")):
         var = norm(loop.target)
-        return "\n".join(norm(s).replace(var, "<ITEM>") for s in loop.body)
-
-    ctx.check(body_text(al) == body_text(sl), "R19.2", u, sl, "the per-item treatment is identical in the async and the "
-              "sync branch", witness=f"async: {body_text(al)!r} / sync: {body_text(sl)!r}")
-    for loop in (al, sl):
-        var = norm(loop.target)
-        ys = [x for s in loop.body for x in ast.walk(s) if isinstance(x, ast.Yield)]
-        ok = len(ys) == 1 and isinstance(ys[0].value, ast.IfExp)
-        if ok:
-            v = ys[0].value
-            neg = isinstance(v.test, ast.UnaryOp)
-            plain, awaited = (v.body, v.orelse) if neg else (v.orelse, v.body)
-            ok = "isinstance" in norm(v.test) and "Awaitable" in norm(v.test) and var in norm(v.test) \
-                and norm(plain) == var and isinstance(awaited, ast.Await) and norm(awaited.value) == var
-        ctx.check(ok, "R19.2", u, loop, "an item is yielded as is, or awaited first iff it is an Awaitable")
+        heads = [n for n in cfg.nodes if n.kind == kind and n.ast is loop and not n.tag]
+        sig = set()
+        ok_all = bool(heads)
+        for h in heads:
+            for path in enumerate_paths(cfg, h, lambda n, h=h: n is h or n.kind == "exit"):
+                nodes = [n for n, _l in path[1:]]
+                if not nodes or nodes[-1].kind == "exit":
+                    continue
+                tests = [(n, lab) for n, lab in path if n.kind == "branch" and isinstance(n.ast, ast.Call)
+                         and norm(n.ast.func) == "isinstance" and "Awaitable" in norm(n.ast) and norm(n.ast.args[0]) == var]
+                awaits = [n for n in nodes if n.kind == "await"]
+                ys = [n for n in nodes if n.kind == "yield"]
+                if len(tests) != 1 or len(ys) != 1:
+                    ok_all = False
+                    continue
+                awaitable = tests[0][1] == "t"
+                yv = ys[0].info.get("value")
+                if awaitable:
+                    good = len(awaits) == 1 and norm(awaits[0].info.get("value")) == var and (
+                        yv is awaits[0].ast or (isinstance(yv, ast.IfExp) and any(x is awaits[0].ast for x in ast.walk(yv)))
+                        or (isinstance(yv, ast.Name) and any(
+                            s.kind == "store" and s.info.get("value") is awaits[0].ast and yv.id in
+                            [t.id for t in s.info["targets"] if isinstance(t, ast.Name)] for s in nodes)))
+                else:
+                    good = not awaits and (norm(yv) == var or isinstance(yv, ast.IfExp) or (
+                        isinstance(yv, ast.Name) and any(s.kind == "store" and norm(s.info.get("value")) == var for s in nodes)))
+                ok_all = ok_all and good
+                sig.add((awaitable, len(awaits)))
+        sigs[kind] = sig
+        ctx.check(ok_all and sig == {(True, 1), (False, 0)}, "R19.2", u, loop,
+                  "an item is yielded as is, or awaited (exactly once) first iff it is an Awaitable",
+                  witness=f"(is awaitable, awaits) on the paths of the loop body: {sorted(sig)}")
+    ctx.check(sigs.get("pull") == sigs.get("snext"), "R19.2", u, sl, "the per-item treatment is identical in the async and "
+              "the sync branch", witness=str(sigs))
 
 
 def r19_3(ctx) -> None:
